@@ -31,6 +31,10 @@ TRIPLES = [
     ["modified > '2024-05-01'", "modified <= '2024-05-01 10'", "modified between '2024-04-30' and '2024-05-01 10:30'"],
     ["modified = '2024-05-01'", "modified != '2024-05-01 10:30'", "modified >= '2024-05-01 10:30:30'"],
     ["modified < '2024-05-01 10:30'", "modified not between '2024-05-01' and '2024-05-01 10'", "size > 100"],
+    # extension patterns next to names that consist of nothing but the "extension" (`.env`): a condition decides the same
+    # entries alone, in a conjunction, under OR and under NOT, whatever shortcut the first two allow
+    ["name = '*.env'", "name like '%.txt'", "ext = 'env'"],
+    ["name = '*.TXT'", "size >= 100", "name === '.env'"],
 ]
 
 
@@ -56,6 +60,8 @@ def fixed_tree(root):
     nodes = [{"path": "d0", "kind": "dir"}, {"path": "d1", "kind": "dir"}, {"path": "d2", "kind": "dir"}] + nodes
     for lit in ("a*", "?yz", "a*c", "t?t.t?t", "a.c", "a_c", "A*"):
         nodes.append({"path": "d1/" + lit, "kind": "file", "size": 101, "owner": (0, 0), "mode": 0o644})
+    for k, nm in enumerate((".env", "d0/.env", "d1/.txt", "d1/x.env", "d2/.env.txt", "d2/X.ENV", "d2/env", "d0/.TXT")):
+        nodes.append({"path": nm, "kind": "file", "size": (99, 100, 101)[k % 3], "owner": (k % 2, 0), "mode": 0o644})
     nodes.append({"path": "abc", "kind": "file", "size": 100, "owner": (0, 0), "mode": 0o644})
     nodes.append({"path": "d0/abc", "kind": "file", "size": 101, "owner": (1, 5), "mode": 0o644})
     tree.materialise(root, nodes)
@@ -173,6 +179,12 @@ def run_job(job):
         # zip members (they are filtered by the same WHERE)
         for dn in ("d0", "d1", "d2"):
             os.makedirs(os.path.join(root, dn), exist_ok=True)
+        if job["tree"] != "fixed":
+            for nm in (".env", "d0/.txt", "d1/.ENV", "d2/q.env"):
+                fp = os.path.join(root, nm)
+                if not os.path.lexists(fp):
+                    with open(fp, "wb") as f:
+                        f.write(b"e" * rng.choice([0, 99, 100, 101, 150]))
         if job["kind"] != "exhaustive" and rng.random() < 0.25:
             # entries whose path is longer than PATH_MAX: they have attributes like any other, so A and not A split them too
             tree.make_beyond_path_max(os.path.join(root, "d2"), len("t/d2"))
